@@ -297,6 +297,12 @@ def wl_c05(tier, seed, shard, nshards):
                     for f in forms:
                         yield {'prog': fn(e, x), 'form': f, 'w': 'W3e'}
                         yield {'prog': fn(x, e), 'form': f, 'w': 'W3e'}
+            for lit in ('a|', '|', '|b', 'x|y|', '\\|'):
+                for f in 'cm':
+                    yield {'prog': G.OPN('alt', G.L(lit), e), 'form': f, 'w': 'W3e'}
+                    yield {'prog': G.OPN('alt', G.L('b'), G.L(lit), e), 'form': f, 'w': 'W3e'}
+                    yield {'prog': G.OPN('alt', G.L(lit), e, G.L('c')), 'form': f, 'w': 'W3e'}
+                    yield {'prog': G.OPN('cat', G.OPN('alt', G.L(lit), e), G.L('z')), 'form': f, 'w': 'W3e'}
             for x in basis:
                 yield {'prog': G.OPN('cat', x, e, x), 'form': 'c', 'w': 'W3e'}
                 yield {'prog': G.OPN('alt', x, e, x), 'form': 'c', 'w': 'W3e'}
@@ -492,6 +498,9 @@ def lookbehind_operands():
             # wide but fixed (beyond small-int / small-buffer limits) and wide but variable
             O('ex', G.CLS('AnyDigit'), n=255), O('ex', G.CLS('AnyDigit'), n=256), O('ex', G.CLS('AnyDigit'), n=257), O('ex', G.CLS('AnyDigit'), n=300),
             Lx('k' * 256), Lx('k' * 257), Lx('ab' * 500), O('ex', O('alt', Lx('ab'), Lx('cd')), n=150), O('ex', O('ex', O('ex', Lx('a'), n=7), n=7), n=7),
+            # a class that ends in an escaped backslash, a variable part, another class
+            O('cat', G.BTW('A', '\\'), O('opt', Lx('x')), G.CLS('AnyLetter')), O('cat', G.FROM('a', '\\'), O('star', Lx('x')), G.FROM('b', 'c')),
+            O('cat', G.FROM('\\'), O('opt', Lx('x')), G.FROM('[')), O('cat', G.BTW('A', '\\'), Lx('x'), G.CLS('AnyLetter')), O('cat', G.TOK('Backslash'), O('plus', Lx('x')), G.FROM(']')),
             O('q', G.CLS('AnyDigit'), n=256, m=257), O('alt', Lx('k' * 257), Lx('j' * 258)), O('alt', Lx('k' * 257), Lx('j' * 257)), O('ex', Lx('a'), n=65536),
             ]
 
